@@ -16,6 +16,47 @@ mod util;
 
 use std::io::{BufWriter, Write};
 
+/// The process allocator: the system allocator, except that a thread which has *armed* it parks
+/// at every allocation until a helper thread has performed one action (`counter.rs`, the
+/// installation-window scenario: a call of the target at every allocation point inside
+/// `will_execute`).  Never armed elsewhere.
+pub mod winalloc {
+    use std::alloc::{GlobalAlloc, Layout, System};
+    use std::cell::Cell;
+    use std::sync::atomic::{AtomicUsize, Ordering};
+    thread_local! { pub static ARMED: Cell<bool> = const { Cell::new(false) }; }
+    pub static REQ: AtomicUsize = AtomicUsize::new(0);
+    pub static DONE: AtomicUsize = AtomicUsize::new(0);
+    pub struct A;
+    fn rendezvous() {
+        if ARMED.try_with(|a| a.get()).unwrap_or(false) {
+            let want = REQ.fetch_add(1, Ordering::SeqCst) + 1;
+            while DONE.load(Ordering::SeqCst) < want {
+                std::thread::yield_now();
+            }
+        }
+    }
+    unsafe impl GlobalAlloc for A {
+        unsafe fn alloc(&self, l: Layout) -> *mut u8 {
+            rendezvous();
+            System.alloc(l)
+        }
+        unsafe fn alloc_zeroed(&self, l: Layout) -> *mut u8 {
+            rendezvous();
+            System.alloc_zeroed(l)
+        }
+        unsafe fn dealloc(&self, p: *mut u8, l: Layout) {
+            System.dealloc(p, l)
+        }
+        unsafe fn realloc(&self, p: *mut u8, l: Layout, n: usize) -> *mut u8 {
+            rendezvous();
+            System.realloc(p, l, n)
+        }
+    }
+}
+#[global_allocator]
+static GLOBAL: winalloc::A = winalloc::A;
+
 fn main() {
     let argv: Vec<String> = std::env::args().collect();
     if argv.len() < 2 {
